@@ -308,7 +308,7 @@ func c16(sum *lib.Summary) {
 		ElemType: "nkind * nkind * rmode * Z * res Z * res Z", CheckFn: "check_conv_round", PerFile: 700}
 	nrand, coqPerPair, nscript := 12, 6, 120
 	if *tier == "thorough" {
-		nrand, coqPerPair, nscript = 400, 60, 3000
+		nrand, coqPerPair, nscript = 150, 25, 2000
 	}
 	sum.Rule = "every (source kind, target kind) pair of the 27 numeric kinds x source values at and around every bound of the target " +
 		"(expressed at the source's scale: floor/ceil, +-1 unit of either scale, +-1/2, +-1 integer), multiples of 2^n for Word targets, bounds of the source, " +
@@ -408,7 +408,7 @@ func c16(sum *lib.Summary) {
 			v := sourceValues(s, t, rng, nrand)
 			sel := pick(v, coqPerPair)
 			for i, z := range v.vals {
-				one(s, t, z, -1, sel[i] || *tier == "thorough" && i%3 == 0)
+				one(s, t, z, -1, sel[i])
 			}
 		}
 	}
